@@ -390,6 +390,34 @@ func (g *vgen) verifyFamily(keys []vkey, n int, repeats bool) {
 		c.Signatures = []*Signature{{Index: uint8(b), Signature: vsign(set2[b], digest)}}
 		g.ver("repeatedkey-single", c, ad2)
 	}
+	// a guardian list that contains the zero address (and other degenerate addresses) together with signature bytes
+	// that do not recover at all: recovery failure must never be taken for "recovers to 0x00..00"
+	if n >= 1 {
+		for _, fill := range []byte{0x00, 0xff} {
+			i := r.Intn(n)
+			ad2 := append([]common.Address{}, addrs...)
+			ad2[i] = common.Address{}
+			c := vclone(base)
+			var bad [65]byte
+			for j := range bad {
+				bad[j] = fill
+			}
+			c.Signatures = []*Signature{{Index: uint8(i), Signature: bad}}
+			g.ver("zeroaddr-unrecoverable", c, ad2)
+			bad2 := vsign(set[i], digest)
+			bad2[64] = 27 + byte(r.Intn(200))
+			c = vclone(base)
+			c.Signatures = []*Signature{{Index: uint8(i), Signature: bad2}}
+			g.ver("zeroaddr-badrecid", c, ad2)
+			// all guardians zero, all signatures garbage
+			adz := make([]common.Address, n)
+			c = vclone(base)
+			for j := 0; j < n && j < 255; j++ {
+				c.Signatures = append(c.Signatures, &Signature{Index: uint8(j), Signature: bad})
+			}
+			g.ver("allzero", c, adz)
+		}
+	}
 	// more signatures than addresses
 	if n < 255 {
 		c := vclone(base)
